@@ -404,6 +404,27 @@ def _in_print(module, n):
     return False
 
 
+def _is_reader_expr(ctx, mod, e, depth):
+    """Does the expression denote the builtin input / raw_input (directly, as an attribute of the
+    builtins module, through getattr(builtins, "raw_input", <input>), or as the value a helper of
+    the package returns on every path)?"""
+    if depth > 3:
+        return False
+    if isinstance(e, ast.Name) and e.id in ("input", "raw_input"):
+        return ctx.repo.resolve_global(mod, e.id) is None
+    if isinstance(e, ast.Attribute) and e.attr in ("input", "raw_input") and isinstance(e.value, ast.Name) and "builtin" in e.value.id:
+        return True
+    if isinstance(e, ast.Call) and isinstance(e.func, ast.Name) and e.func.id == "getattr" and len(e.args) == 3:
+        if isinstance(e.args[1], ast.Constant) and e.args[1].value in ("raw_input", "input"):
+            return _is_reader_expr(ctx, mod, e.args[2], depth + 1)
+    if isinstance(e, ast.Call) and isinstance(e.func, ast.Name) and not e.args and not e.keywords:
+        r = ctx.repo.resolve_global(mod, e.func.id)
+        if r is not None and r[0] == "func":
+            rets = [x for x in ast.walk(r[1].node) if isinstance(x, ast.Return)]
+            return bool(rets) and all(x.value is not None and _is_reader_expr(ctx, r[1].module, x.value, depth + 1) for x in rets)
+    return False
+
+
 def check_eof_source(ctx, led, rule="C17.eof.source"):
     """End of input ends the program cleanly only if the builder's read raises EOFError there:
     every read in interactive.py must go through the builtin input()/raw_input() (directly or via a
@@ -445,7 +466,7 @@ def check_eof_source(ctx, led, rule="C17.eof.source"):
                 elif r is not None and r[0] == "value":
                     # alias bound at module level: every binding must be input / raw_input
                     binds = [x for x in ast.walk(r[1].tree) if isinstance(x, ast.Assign) and any(isinstance(t, ast.Name) and t.id == n.func.id for t in x.targets)]
-                    vals = [norm_src(b.value) for b in binds]
+                    vals = ["input" if _is_reader_expr(ctx, r[1], b.value, 0) else norm_src(b.value) for b in binds]
                     if vals and any(v in ("input", "raw_input") for v in vals):
                         n_reads += 1
                         led.check(
